@@ -47,6 +47,7 @@ def import_from(src, prop):
 
 
 def verify(d, extra_checks, tier, confirm=True):
+    d = os.path.abspath(d)
     name = os.path.basename(d.rstrip('/'))
     prop = name.split('_')[0]
     meta_path = os.path.join(d, 'meta.json')
